@@ -503,6 +503,13 @@ class Concatenator(Group):  # pylint: disable=too-many-public-methods
                 object_ids.remove(as_str_if_uuid(entity.uid).encode())
                 self.concatenated_object_ids = object_ids
 
+            # Remove the rows of the object's own arrays
+            for label in ["Surveys", "Trace", "Property Group IDs"]:
+                index = self.fetch_index(entity, label)
+                if index is not None:
+                    self.delete_index_data(label, index)
+                    self.save_attribute(label)
+
         elif isinstance(entity, ConcatenatedPropertyGroup):
             # Remove all data within the group
             if entity.properties is not None and len(entity.properties) > 0:
